@@ -1,0 +1,360 @@
+//! Verification hooks (compiled only with `--cfg surrealkv_verif`).
+//!
+//! Everything in this module is additive: seams for an external model-checking
+//! harness (scheduling points, environment overrides, fault points) and thin
+//! drivers / read-outs over crate-private functionality. None of it contains
+//! storage logic of its own. With the cfg off nothing here is compiled.
+
+use std::cell::Cell;
+use std::sync::atomic::{AtomicU32, AtomicU64, Ordering};
+use std::sync::{Arc, Mutex, OnceLock};
+
+use crate::clock::LogicalClock;
+use crate::compaction::leveled::Strategy;
+use crate::compaction::CompactionStrategy;
+use crate::error::{Error, Result};
+use crate::lsm::{CompactionOperations, Tree};
+use crate::transaction::Transaction;
+use crate::Options;
+
+// ===========================================================================
+// Scheduling seam
+// ===========================================================================
+
+/// Callbacks installed by the harness. All are no-ops until installed and
+/// unless the calling thread registered itself with `set_managed(true)`.
+pub struct SchedHooks {
+	/// A plain scheduling point: the thread may be descheduled here.
+	pub yield_point: fn(&'static str),
+	/// A point just before a blocking lock acquisition. `is_locked` tells the
+	/// scheduler whether the lock is currently held by somebody else.
+	pub acquire_point: fn(&'static str, &dyn Fn() -> bool),
+	/// A notification that background work may have become runnable.
+	pub event: fn(&'static str),
+}
+
+static SCHED: OnceLock<SchedHooks> = OnceLock::new();
+
+thread_local! {
+	static MANAGED: Cell<bool> = const { Cell::new(false) };
+}
+
+/// Install the scheduler callbacks (once per process).
+pub fn install_sched(h: SchedHooks) -> bool {
+	SCHED.set(h).is_ok()
+}
+
+/// Mark the current OS thread as managed by the installed scheduler.
+pub fn set_managed(on: bool) {
+	MANAGED.with(|m| m.set(on));
+}
+
+#[inline]
+fn managed() -> bool {
+	MANAGED.with(|m| m.get())
+}
+
+#[inline]
+pub(crate) fn yield_point(id: &'static str) {
+	if managed() {
+		if let Some(h) = SCHED.get() {
+			(h.yield_point)(id);
+		}
+	}
+}
+
+#[inline]
+pub(crate) fn acquire_point(id: &'static str, is_locked: &dyn Fn() -> bool) {
+	if managed() {
+		if let Some(h) = SCHED.get() {
+			(h.acquire_point)(id, is_locked);
+		}
+	}
+}
+
+#[inline]
+pub(crate) fn event(id: &'static str) {
+	if let Some(h) = SCHED.get() {
+		(h.event)(id);
+	}
+}
+
+/// Counter bumped whenever a background task makes progress (used by the
+/// harness to detect quiescence of the runtime it drives). Thread-local:
+/// a `current_thread` runtime runs its tasks on the thread that drives it, so
+/// concurrent executions on other threads do not disturb each other.
+thread_local! {
+	static BG_PROGRESS: Cell<u64> = const { Cell::new(0) };
+}
+
+#[inline]
+pub(crate) fn bg_progress() {
+	BG_PROGRESS.with(|c| c.set(c.get() + 1));
+}
+
+pub fn bg_progress_count() -> u64 {
+	BG_PROGRESS.with(|c| c.get())
+}
+
+// ===========================================================================
+// Environment seams
+// ===========================================================================
+
+static FORCED_HEIGHT: AtomicU32 = AtomicU32::new(0);
+static GC_INTERVAL_OVERRIDE: AtomicU32 = AtomicU32::new(0);
+
+/// Force every skiplist tower to the given height (0 = random, as in
+/// production). Makes the moment at which a memtable arena fills up a pure
+/// function of the bytes inserted.
+pub fn set_forced_height(h: u32) {
+	FORCED_HEIGHT.store(h, Ordering::SeqCst);
+}
+
+#[inline]
+pub(crate) fn forced_height() -> Option<u32> {
+	match FORCED_HEIGHT.load(Ordering::Relaxed) {
+		0 => None,
+		h => Some(h),
+	}
+}
+
+/// Override the oracle's GC throttle interval (0 = production constant).
+pub fn set_gc_interval(n: u32) {
+	GC_INTERVAL_OVERRIDE.store(n, Ordering::SeqCst);
+}
+
+#[inline]
+pub(crate) fn gc_interval(default: u32) -> u32 {
+	match GC_INTERVAL_OVERRIDE.load(Ordering::Relaxed) {
+		0 => default,
+		n => n,
+	}
+}
+
+/// Fault points: the harness arms a named point to fail the n-th time it is
+/// reached (1-based), once or from then on.
+#[derive(Clone, Debug)]
+pub struct FailSpec {
+	pub point: &'static str,
+	pub nth: u64,
+	pub persistent: bool,
+}
+
+struct FailState {
+	spec: Option<FailSpec>,
+	hits: u64,
+}
+
+static FAIL: Mutex<FailState> = Mutex::new(FailState {
+	spec: None,
+	hits: 0,
+});
+
+pub fn arm_fail_point(spec: Option<FailSpec>) {
+	let mut g = FAIL.lock().unwrap();
+	g.spec = spec;
+	g.hits = 0;
+}
+
+pub(crate) fn fail_point(id: &'static str) -> Result<()> {
+	let mut g = FAIL.lock().unwrap();
+	let Some(spec) = g.spec.clone() else {
+		return Ok(());
+	};
+	if spec.point != id {
+		return Ok(());
+	}
+	g.hits += 1;
+	let fire = if spec.persistent {
+		g.hits >= spec.nth
+	} else {
+		g.hits == spec.nth
+	};
+	if fire {
+		Err(Error::Other(format!("verif: injected failure at {id}")))
+	} else {
+		Ok(())
+	}
+}
+
+/// A logical clock fully controlled by the harness.
+#[derive(Debug, Default)]
+pub struct ManualClock {
+	now: AtomicU64,
+}
+
+impl ManualClock {
+	pub fn new(start: u64) -> Arc<Self> {
+		Arc::new(Self {
+			now: AtomicU64::new(start),
+		})
+	}
+
+	pub fn set(&self, t: u64) {
+		self.now.store(t, Ordering::SeqCst);
+	}
+
+	pub fn advance(&self, d: u64) -> u64 {
+		self.now.fetch_add(d, Ordering::SeqCst) + d
+	}
+
+	pub fn get(&self) -> u64 {
+		self.now.load(Ordering::SeqCst)
+	}
+}
+
+impl LogicalClock for ManualClock {
+	fn now(&self) -> u64 {
+		self.now.load(Ordering::SeqCst)
+	}
+}
+
+impl Options {
+	/// Install a harness-controlled clock (the field is crate-private).
+	pub fn verif_with_clock(mut self, clock: Arc<ManualClock>) -> Self {
+		self.clock = clock;
+		self
+	}
+}
+
+// ===========================================================================
+// Drivers and read-outs on the store
+// ===========================================================================
+
+/// One table as seen in the manifest.
+#[derive(Clone, Debug, PartialEq, Eq)]
+pub struct TableShape {
+	pub id: u64,
+	pub smallest: Option<(Vec<u8>, u64)>,
+	pub largest: Option<(Vec<u8>, u64)>,
+	pub seqnos: (u64, u64),
+	pub entries: u64,
+	pub oldest_vlog_file_id: u64,
+	pub file_size: u64,
+}
+
+/// Physical shape of the store (for evidence, canonical-state counting and
+/// diagnosis; never used to decide a verdict).
+#[derive(Clone, Debug, PartialEq, Eq, Default)]
+pub struct LevelShape {
+	pub levels: Vec<Vec<TableShape>>,
+	pub immutables: Vec<(u64, u64, bool)>,
+	pub active_empty: bool,
+	pub active_wal: u64,
+	pub log_number: u64,
+	pub last_sequence: u64,
+	pub next_table_id: u64,
+}
+
+impl Tree {
+	/// Rotate the active memtable into the immutable queue (no flush).
+	pub fn verif_rotate(&self) -> Result<()> {
+		self.core.inner.rotate_memtable()
+	}
+
+	/// Flush the oldest immutable memtable (the body of the background flush
+	/// task), including the spawned WAL clean-up. Returns whether a table was
+	/// written.
+	pub fn verif_flush_oldest(&self) -> Result<bool> {
+		let before = self.core.inner.immutable_count();
+		self.core.inner.compact_memtable()?;
+		self.core.write_stall.signal_work_done();
+		Ok(self.core.inner.immutable_count() < before)
+	}
+
+	/// Rotate (if non-empty) and flush everything, as the test-only
+	/// `Tree::flush` does.
+	pub fn verif_flush_all(&self) -> Result<()> {
+		{
+			let active = self.core.inner.active_memtable.read()?;
+			if !active.is_empty() {
+				drop(active);
+				self.core.inner.rotate_memtable()?;
+			}
+		}
+		self.core.inner.flush_all_immutables_sync()?;
+		self.core.write_stall.signal_work_done();
+		Ok(())
+	}
+
+	/// One compaction round with the production leveled strategy (the body of
+	/// the background compaction task).
+	pub fn verif_compact_round(&self) -> Result<()> {
+		let strategy: Arc<dyn CompactionStrategy> =
+			Arc::new(Strategy::from_options(Arc::clone(&self.core.inner.opts)));
+		self.core.inner.compact(strategy)?;
+		self.core.write_stall.signal_work_done();
+		Ok(())
+	}
+
+	pub fn verif_visible_seq(&self) -> u64 {
+		self.core.seq_num()
+	}
+
+	/// Registered snapshot horizons and registered transaction start points.
+	pub fn verif_tracker_dump(&self) -> (Vec<u64>, Option<u64>) {
+		(
+			self.core.inner.snapshot_tracker.get_all_snapshots(),
+			self.core.inner.active_txn_tracker.oldest(),
+		)
+	}
+
+	pub fn verif_level_shape(&self) -> Result<LevelShape> {
+		let mut shape = LevelShape::default();
+		{
+			let active = self.core.inner.active_memtable.read()?;
+			shape.active_empty = active.is_empty();
+			shape.active_wal = active.get_wal_number();
+		}
+		{
+			let imm = self.core.inner.immutable_memtables.read()?;
+			for e in imm.iter() {
+				shape.immutables.push((e.table_id, e.wal_number, e.memtable.is_empty()));
+			}
+		}
+		let manifest = self.core.inner.level_manifest.read()?;
+		shape.log_number = manifest.get_log_number();
+		shape.last_sequence = manifest.get_last_sequence();
+		shape.next_table_id = manifest.next_table_id();
+		for level in manifest.levels.get_levels() {
+			let mut row = Vec::new();
+			for t in level.tables.iter() {
+				row.push(TableShape {
+					id: t.id,
+					smallest: t
+						.meta
+						.smallest_point
+						.as_ref()
+						.map(|k| (k.user_key.clone(), k.seq_num())),
+					largest: t.meta.largest_point.as_ref().map(|k| (k.user_key.clone(), k.seq_num())),
+					seqnos: t.meta.properties.seqnos,
+					entries: t.meta.properties.num_entries,
+					oldest_vlog_file_id: t.meta.properties.oldest_vlog_file_id,
+					file_size: t.file_size,
+				});
+			}
+			shape.levels.push(row);
+		}
+		Ok(shape)
+	}
+
+	/// Wake the background tasks the way the commit path does.
+	pub fn verif_wake_background(&self) {
+		if let Some(tm) = self.core.task_manager.lock().unwrap().as_ref() {
+			tm.wake_up_memtable();
+			tm.wake_up_level();
+		}
+	}
+
+	/// The sticky background error, if any.
+	pub fn verif_background_error(&self) -> Result<()> {
+		self.core.inner.error_handler.check_error()
+	}
+}
+
+impl Transaction {
+	/// The snapshot horizon this transaction reads at (diagnosis only).
+	pub fn verif_start_seq(&self) -> u64 {
+		self.start_seq_num
+	}
+}
